@@ -203,51 +203,64 @@ def run(ctx: Any, prog: Program) -> None:
     # reading units is computed as a fixed point (state = the locals that some iteration reads before writing);
     # from every reachable state every unit must append exactly its original character and consume exactly itself.
     reachable_states: Dict[str, int] = {}
+    NOLAST = '<empty>'
     for mode, S in (('single-line', S1), ('multiline', Sm)):
         live = set(init_env)
+        track_acc = False       # becomes true when some iteration looks at the accumulator: its last element is then part of the state
         while True:
             seen = set()
-            work = [dict(init_env)]
+            work = [(dict(init_env), NOLAST)]
+            if track_acc:
+                work += [(dict(init_env), p) for p in alphabet]
             grew = False
             results = []
             while work and not grew:
-                st = work.pop()
-                key = repr(sorted((k, repr(st.get(k))) for k in live))
+                st, last = work.pop()
+                key = repr(sorted((k, repr(st.get(k))) for k in live)) + ('|' + repr(last) if track_acc else '')
                 if key in seen:
                     continue
                 seen.add(key)
-                if len(seen) > 400:
-                    raise AnalysisError('Tokenizer._handle_string: more than 400 loop-carried states; not a finite-state handler')
+                if len(seen) > 4000:
+                    raise AnalysisError('Tokenizer._handle_string: more than 4000 loop-carried states; not a finite-state handler')
+                have = [] if (last == NOLAST or not track_acc) else [last]
                 for c in alphabet:
                     escaped = c is not OTHER and c in S
                     unit = list(INV[c]) if escaped else [c]
-                    out = iterate(unit, env=st)
+                    out = iterate(unit, env=st, have=have)
+                    if acc in out.reads_before_write and not track_acc:
+                        track_acc = True
+                        grew = True
+                        break
                     if out.reads_before_write - live - {acc}:
                         live |= out.reads_before_write - {acc}
                         grew = True
                         break
-                    ok = (out.kind == 'next' and out.lists.get(acc) == [c] and out.consumed == len(unit) and out.rewinds == 0)
-                    results.append((st, c, escaped, unit, out, ok))
+                    ok = (out.kind == 'next' and out.lists.get(acc) == have + [c] and out.consumed == len(unit) and out.rewinds == 0)
+                    results.append((st, c, escaped, unit, out, ok, have))
                     if out.kind == 'next':
-                        work.append(dict(out.env))
+                        nl = out.lists.get(acc) or []
+                        work.append((dict(out.env), nl[-1] if nl else NOLAST))
             if not grew:
                 break
         reachable_states[mode] = len(seen)
         # report one instance per (mode, unit): ok iff it holds from every reachable state
         per_unit: Dict[str, Any] = {}
-        for st, c, escaped, unit, out, ok in results:
+        for st, c, escaped, unit, out, ok, have in results:
             k = repr(c)
             cur = per_unit.get(k)
             if cur is None or (cur[0] and not ok):
-                per_unit[k] = (ok, st, c, escaped, unit, out)
-        for k, (ok, st, c, escaped, unit, out) in per_unit.items():
+                per_unit[k] = (ok, st, c, escaped, unit, out, have)
+        for k, (ok, st, c, escaped, unit, out, have) in per_unit.items():
             stdesc = {a: st.get(a) for a in sorted(live)}
+            after = f' after the characters {have!r} were already collected' if have else ''
             if escaped:
-                ctx.check('C02.T3', ok, tk, loop, f'{mode}: unit {"".join(unit)!r} read in handler state {stdesc} must append {c!r} and consume exactly 2 characters; got {out!r}',
+                ctx.check('C02.T3', ok, tk, loop, f'{mode}: unit {"".join(unit)!r} read in handler state {stdesc}{after} must append {c!r} and consume exactly 2 characters; got {out!r}',
                           text=f'{mode} escaped unit {"".join(unit)!r}')
             else:
-                ctx.check('C02.T3', ok, tk, loop, f'{mode}: raw character {show(c)} is left unescaped by escape_text, so read in handler state {stdesc} it must be appended '
+                ctx.check('C02.T3', ok, tk, loop, f'{mode}: raw character {show(c)} is left unescaped by escape_text, so read in handler state {stdesc}{after} it must be appended '
                           f'unchanged, consuming exactly 1 character; got {out!r}', text=f'{mode} raw char {show(c)}')
+        if track_acc:
+            ctx.note(f'{mode}: the handler inspects its accumulator; its last element was made part of the state')
     ctx.note(f'handler loop-carried states reachable over unit sequences: {reachable_states}')
 
     # T4: closing quote
@@ -344,6 +357,7 @@ def run(ctx: Any, prog: Program) -> None:
 
 
 MUTANTS = [
+    {'id': 'raw_newline_eats_decoded_backslash', 'file': 'tokenizer.py', 'find': "                self.line_num += 1\n            else:\n                last_was_cr = False\n", 'replace': "                self.line_num += 1\n                if value_chars and value_chars[-1] == '\\\\':\n                    value_chars.pop()\n                    continue\n            else:\n                last_was_cr = False\n", 'expect': 'C02.T3'},
     {'id': 'multiline_by_replace', 'file': 'tokenizer.py', 'find': "    return (ESCAPE_MULTILINE_RE if multiline else ESCAPE_RE).sub(_escape_matcher, text)", 'replace': "    escaped = ESCAPE_RE.sub(_escape_matcher, text)\n    if multiline:\n        escaped = escaped.replace('\\\\n', '\\n')\n    return escaped", 'expect': 'C02.T2'},
     {'id': 'inv_wrong_symbol', 'file': 'tokenizer.py', 'find': "ESCAPES_INV = {char: f'\\\\{sym}'", 'replace': "ESCAPES_INV = {char: f'\\\\{char}'", 'expect': 'C02.T1'},
     {'id': 'multiline_leaves_cr_raw', 'file': 'tokenizer.py', 'find': "if c not in '?/\\n'", 'replace': "if c not in '?/\\n\\r'", 'expect': 'C02.T3'},
